@@ -646,6 +646,15 @@ def _iter_adapter(name):
     return f
 
 
+def _closure_loop(mode):
+    def f(m, st, fr, callee, args, dest_ty, term):
+        from .loops import closure_loop
+        if mode == 'fold':
+            return closure_loop(m.sx, st, fr, term, args[0], args[2], args[1], 'fold')
+        return closure_loop(m.sx, st, fr, term, args[0], args[1], None, mode)
+    return f
+
+
 def _iter_count(m, st, fr, callee, args, dest_ty, term):
     return ('call', 'iter_count', (m.sx.resolve_deep(st, args[0]),))
 
@@ -823,6 +832,9 @@ MODELS = {
     'core::iter::Iterator::cloned': _iter_adapter('copied'),
     'core::iter::Iterator::collect': _iter_adapter('collect'),
     'core::iter::Iterator::count': _iter_count,
+    'core::iter::Iterator::for_each': _closure_loop('for_each'),
+    'core::iter::Iterator::try_for_each': _closure_loop('try_for_each'),
+    'core::iter::Iterator::fold': _closure_loop('fold'),
     'core::slice::sort_by': _sort_by,
     'core::slice::len': _slice_len,
     'core::ops::Deref::deref': _deref_container,
